@@ -50,6 +50,32 @@ def rmtree(path):
     shutil.rmtree(path, ignore_errors=True)
 
 
+class CpuTimeout(Exception):
+    """The job used more CPU time than any legitimate execution needs (robust against a loaded machine)."""
+
+
+class cpu_limit:
+    """with cpu_limit(seconds): ...  raises CpuTimeout after that much CPU time of THIS process (user time)."""
+
+    def __init__(self, seconds):
+        self.seconds = seconds
+
+    def __enter__(self):
+        import signal
+
+        def handler(signum, frame):
+            raise CpuTimeout('more than %d s of CPU time' % self.seconds)
+        self.old = signal.signal(signal.SIGVTALRM, handler)
+        signal.setitimer(signal.ITIMER_VIRTUAL, self.seconds)
+        return self
+
+    def __exit__(self, *a):
+        import signal
+        signal.setitimer(signal.ITIMER_VIRTUAL, 0)
+        signal.signal(signal.SIGVTALRM, self.old)
+        return False
+
+
 def pmap(fn, jobs, workers=None, timeout=None):
     """Run fn(job) over jobs in worker processes (non-daemonic, so jobs may create pools)."""
     jobs = list(jobs)
